@@ -159,6 +159,11 @@ impl<'a> Ck<'a> {
     }
 
     fn check_fmt(&mut self, f: &CatFmt, s: &[u8]) {
+        // once per format: options whose decimal point / exponent is the format's separator byte
+        if f.desc.sep != 0 && !self.fopts.iter().any(|(n, _)| *n == "point_is_sep") {
+            self.fopts.push(("point_is_sep", ParseFloatOptions::builder().decimal_point(f.desc.sep).exponent(if f.desc.mantissa_radix >= 15 { b'^' } else { b'e' }).build_unchecked()));
+            self.fopts.push(("exp_is_sep", ParseFloatOptions::builder().exponent(f.desc.sep).build_unchecked()));
+        }
         self.fam.states += 1;
         self.fam.cases += 1;
         if self.fam.want_sample() {
